@@ -22,6 +22,7 @@ type funcResult struct {
 	Iter        int
 	Secs        float64
 	GlueKept    map[string][]string
+	Agree, Unknown, Disagree int
 }
 
 // verifyFunc runs the Houdini loop for glue and then discharges everything.
@@ -108,6 +109,9 @@ func (e *Engine) verifyFunc(name, prop string, cfg solverCfg, verbose bool) *fun
 		}
 	}
 	vc.solveAll(rest, cfg)
+	if cfg.thorough {
+		fr.Agree, fr.Unknown, fr.Disagree = vc.crossCheck(vc.obligs, cfg)
+	}
 	fr.Obligs = vc.obligs
 	// vacuity guards: the entry and every loop head must be satisfiable, and every
 	// event (call site, callback, loop cut, back edge, return) must lie on at least
